@@ -36,7 +36,7 @@ Definition canonical_file (items : list item) : str :=
   render_file (norm_imports (flat_map it_imports items)) (sort_blocks (map it_block items)).
 
 (* --- well-formedness (boolean, so that generated inputs can be checked by computation) ------- *)
-Definition name_char (c : char) : bool := negb (is_whitespace c) && negb (c =? 44) (* , *).
+Definition name_char (c : char) : bool := negb (is_whitespace c) && negb (c =? 44) (* , *) && negb (c =? 125) (* } *).
 (* an imported name `from` as the last name of a group makes the line's first " from " the wrong
    one (`import type { from } from "p";`): known class, excluded here *)
 Definition wf_name (n : str) : bool :=
